@@ -203,8 +203,12 @@ double GammaQint(double x, double a)
 			tMin = 0.0;
 		// Precision
 		double eps = Find_Epsilon(integrand, tMin, x, 1e-5);
-		// Integrate
+		// Integrate (the quadrature error has either sign, P is a probability; a NaN is passed on)
 		gammaP = Integrate(integrand, tMin, x, eps);
+		if(gammaP < 0.0)
+			gammaP = 0.0;
+		else if(gammaP > 1.0)
+			gammaP = 1.0;
 	}
 
 	return 1.0 - gammaP;
